@@ -151,7 +151,7 @@ theorem pickDistinct_len_errPrefixDet (nodesLen fns : Nat) :
     | cons x u' => exact ⟨x :: u', [], rfl, fun rs' => rep _ _ (by simp) (by simp)⟩
   | cons y t' =>
     refine ⟨u ++ [y], t', by simp, fun rs' => ?_⟩
-    have := rep (u ++ [y] ++ rs').length ([y] ++ rs') (by simp) (by simp; omega)
+    have := rep (u ++ [y] ++ rs').length ([y] ++ rs') (by simp; omega) (by simp)
     simpa [List.append_assoc] using this
 
 macro_rules | `(tactic| epd_leaf) => `(tactic| with_reducible exact pickDistinct_len_errPrefixDet _ _)
